@@ -1,5 +1,6 @@
 """C06 History report attributes every matching commit to the right build per branch."""
 import logging
+import os
 import re
 
 import vf
@@ -29,15 +30,20 @@ TIERS = {
     "thorough": {"shards": 16, "cases": 5000, "timeout": 3000, "params": {"case_timeout": 10}},
 }
 FLOORS = {"quick": {"distinct_nontrivial": 800, "commit_branch_decisions": 20000, "not_merged_listings": 1000,
-                    "heads_inside_lower_branch": 150, "printed_reports_parsed": 1500},
+                    "heads_inside_lower_branch": 150, "printed_reports_parsed": 1500,
+                    "histories_tracking_a_remote_other_than_origin": 100,
+                    "loose_refs_with_a_stale_packed_line": 50, "annotated_tags_in_loose_files": 50},
           "thorough": {"distinct_nontrivial": 40000, "commit_branch_decisions": 1000000,
                        "not_merged_listings": 50000, "heads_inside_lower_branch": 8000,
-                       "printed_reports_parsed": 80000}}
+                       "printed_reports_parsed": 80000,
+                       "histories_tracking_a_remote_other_than_origin": 3000,
+                       "loose_refs_with_a_stale_packed_line": 2000, "annotated_tags_in_loose_files": 2000}}
 LEVEL_TEXT = ("Runtime exploration with a graph oracle: the real report builder runs on thousands of generated "
               "repositories (own GitPython mock, several roots allowed) and each (branch, matching commit) "
               "decision is re-derived by plain reachability on the DAG; the printed report is parsed back and "
               "compared with the data it was printed from.")
-LEVEL_NOTE = ("Histories <= 25 commits and <= 4 branches; tag-based build detection (default and project-specific pattern); commit "
+LEVEL_NOTE = ("Histories <= 25 commits and <= 4 branches; tag-based build detection (default and project-specific pattern); 12% of the projects track a remote "
+              "named 'upstream' while 'origin' has unrelated heads (ready project objects handed to the collection in the plain form); commit "
               "times inside 29 days.")
 TECHNIQUE = "runtime monitoring: DAG-reachability oracle over generated commit histories, report parsed back"
 
@@ -101,7 +107,20 @@ def gen_history(rng, max_commits=25):
                 if dotted_tags:
                     rel = rng.choice(["release-%d.%d", "release/%d.%d", "rel.%d-%d"]) % (rng.randint(1, 3), rng.randint(0, 3))
                 tags[f"ci-{bn}-{rel}-ok" if ci_tags else f"build_{bn}_{rel}_success"] = cid
+    if rng.random() < 0.12:
+        # a fork + upstream setup: the project tracks the remote 'upstream'; 'origin' has heads of its own
+        decoys = {"origin/master": rng.choice(ids)}
+        if rng.random() < 0.5:
+            decoys["origin/release/1.0"] = rng.choice(ids)
+        return mg.Repo("r", commits, heads, tags, remote="upstream", decoys=decoys)
     return mg.Repo("r", commits, heads, tags)
+
+
+def disk_collection(repo, git_dir, refs_seed, loose):
+    """a collection whose project reads the refs of `repo` from a .git directory written for this call"""
+    disk_repo, stats = mg.disk_refs_repo(repo, git_dir, refs_seed, loose)
+    cls = type(mg.repo_for('r', repo))
+    return ReposCollection({'r': cls('r', disk_repo, repo.remote)}), stats
 
 
 HASH_RE = re.compile(r"^([0-9a-f]{8,40}) ")
@@ -270,6 +289,8 @@ def run_shard(ctx):
             rng = ctx.rng(i)
             repo = gen_history(rng, 25 if ctx.tier == "quick" else rng.choice([12, 25, 40]))
             descr = mg.describe(repo)
+            if repo.remote != 'origin':
+                ctx.count("histories_tracking_a_remote_other_than_origin")
             texts = rng.sample(TEXTS, rng.randint(1, 3))
             # half of the histories are reported by ONE long-lived collection asked for several texts
             shared = ReposCollection({'r': mg.repo_for('r', repo)}) if rng.random() < 0.5 else None
@@ -280,12 +301,17 @@ def run_shard(ctx):
                 import tempfile
                 git_dir = tempfile.mkdtemp(prefix="vf-c06-git-")
                 try:
-                    n_ann = mg.write_packed_refs(repo, git_dir, rng)
-                    cls = type(mg.repo_for('r', repo))
-                    disk = ReposCollection({'r': cls('r', mg.DiskRefsRepo(repo, git_dir), 'origin')})
+                    refs_seed = rng.getrandbits(32)
+                    loose = rng.choice([0.0, 0.3, 0.6])
+                    disk, stats = disk_collection(repo, git_dir, refs_seed, loose)
                     ctx.count("histories_with_refs_read_from_packed_refs")
-                    ctx.count("annotated_tags_in_packed_refs", n_ann)
-                    judge(ctx, repo, texts[0], {"repo": descr, "text": texts[0], "refs": "packed-refs"}, disk)
+                    ctx.count("annotated_tags_in_packed_refs", stats[0])
+                    ctx.count("refs_in_loose_files", stats[1])
+                    ctx.count("loose_refs_with_a_stale_packed_line", stats[2])
+                    ctx.count("annotated_tags_in_loose_files", stats[3])
+                    judge(ctx, repo, texts[0], {"repo": descr, "text": texts[0], "refs": "packed-refs",
+                                                "refs_seed": refs_seed, "loose": loose}, disk)
+                    ctx.count("loose_refs_resolved_by_the_report_builder", disk.repos['r'].repo.loose_lookups)
                 finally:
                     shutil.rmtree(git_dir, ignore_errors=True)
             for k, text in enumerate(texts):
@@ -336,11 +362,11 @@ def replay(ctx, case):
         import tempfile
         git_dir = tempfile.mkdtemp(prefix="vf-c06-git-")
         try:
-            for k in range(4):       # (which tags were annotated is not recorded: several drawings)
-                mg.write_packed_refs(repo, git_dir, random.Random(k))
-                cls = type(mg.repo_for('r', repo))
-                judge(ctx, repo, case["text"], case,
-                      ReposCollection({'r': cls('r', mg.DiskRefsRepo(repo, git_dir), 'origin')}))
+            if "refs_seed" in case:
+                judge(ctx, repo, case["text"], case, disk_collection(repo, git_dir, case["refs_seed"], case["loose"])[0])
+            else:
+                for k in range(4):       # (older replay files do not record which tags were annotated: several drawings)
+                    judge(ctx, repo, case["text"], case, disk_collection(repo, git_dir, k, 0.0)[0])
         finally:
             shutil.rmtree(git_dir, ignore_errors=True)
         return
